@@ -149,8 +149,12 @@ def decision_table(ctx, fn, max_visits=1, full=None):
 SCOPE_EFFECTS = ('push_scope', 'pop_scope', 'push_main_scope', 'pop_main_scope', 'insert_variable', 'insert_witness', 'insert_parameter', 'insert_alias', 'insert_function', 'track_call')
 
 
-def row_key(r):
-    return json.dumps([r['conds'], r['checks'], r['out'], r.get('effects', []), r.get('value', ''), r.get('trace', []), r.get('state', {})], ensure_ascii=False, sort_keys=True)
+ALL_FIELDS = ('conds', 'checks', 'out', 'effects', 'value', 'trace', 'state')
+GUARD_FIELDS = ('conds', 'checks', 'out', 'effects')
+
+
+def row_key(r, fields=ALL_FIELDS):
+    return json.dumps([r.get(f, {} if f == 'state' else ([] if f in ('conds', 'checks', 'effects', 'trace') else '')) for f in ALL_FIELDS if f in fields] + [[f for f in ALL_FIELDS if f in fields]], ensure_ascii=False, sort_keys=True)
 
 
 EXTRA = re.compile(r'^(value::UIntValue::parse_decimal|value::Value::(from_const_expr|is_of_type|parse_from_str)|types::AliasedType::(resolve|resolve_builtin)(::\{closure#\d+\})?|types::BuiltinAlias::resolve|types::UIntType::(from_bit_width|bit_width|byte_width)|num::(NonZero)?Pow2Usize::new|<num::U256 as std::str::FromStr>::from_str|TemplateProgram::(new|instantiate)|CompiledProgram::new)$')
@@ -186,7 +190,7 @@ def guard_functions(fx):
     return sorted(out)
 
 
-def compare(ctx, rid, paths, table, what):
+def compare(ctx, rid, paths, table, what, fields=ALL_FIELDS):
     """Compare current decision tables of `paths` with the frozen table; one obligation per function plus one per differing row."""
     fx = ctx.facts()
     n = 0
@@ -203,20 +207,38 @@ def compare(ctx, rid, paths, table, what):
         n += len(cur)
         a = {}
         for r in cur:
-            a[row_key(r)] = a.get(row_key(r), 0) + 1
+            a[row_key(r, fields)] = a.get(row_key(r, fields), 0) + 1
         b = {}
         for r in frozen['rows']:
-            b[row_key(r)] = b.get(row_key(r), 0) + 1
+            b[row_key(r, fields)] = b.get(row_key(r, fields), 0) + 1
         missing = [json.loads(k) for k in b if a.get(k, 0) < b[k]]
         extra = [json.loads(k) for k in a if b.get(k, 0) < a[k]]
         ctx.ob(rid, 'table:' + path, not missing and not extra, '%s: %d decision rows equal the reviewed table' % (what, len(cur)), fn.where())
         for m in missing[:6]:
-            ctx.ob(rid, 'row-missing:%s:%s' % (path, m[2]), False, 'reviewed decision row no longer present (check removed or changed)', fn.where(),
-                   'when [%s] after checks %s with scope effects %s => %s  value %s' % (' & '.join(m[0]), m[1], m[3], m[2], m[4][:300]))
+            ctx.ob(rid, 'row-missing:%s:%s' % (path, dict(zip(m[-1], m[:-1])).get('out')), False, 'reviewed decision row no longer present (check removed or changed)', fn.where(),
+                   _fmt_row(m))
         for m in extra[:6]:
-            ctx.ob(rid, 'row-new:%s:%s' % (path, m[2]), False, 'decision row not in the reviewed table (new or weakened condition)', fn.where(),
-                   'when [%s] after checks %s with scope effects %s => %s  value %s' % (' & '.join(m[0]), m[1], m[3], m[2], m[4][:300]))
+            ctx.ob(rid, 'row-new:%s:%s' % (path, dict(zip(m[-1], m[:-1])).get('out')), False, 'decision row not in the reviewed table (new or weakened condition)', fn.where(),
+                   _fmt_row(m))
     return n
+
+
+def _fmt_row(m):
+    names = m[-1]
+    d = dict(zip(names, m[:-1]))
+    out = 'when [%s]' % ' & '.join(d.get('conds', []))
+    if d.get('checks'):
+        out += ' after checks %s' % d['checks']
+    if d.get('effects'):
+        out += ' with scope effects %s' % d['effects']
+    out += ' => %s' % d.get('out')
+    if d.get('value'):
+        out += '  value %s' % d['value'][:300]
+    if d.get('trace'):
+        out += '  calls %s' % d['trace'][-6:]
+    if d.get('state'):
+        out += '  state %s' % d['state']
+    return out
 
 
 def load_table():
